@@ -28,7 +28,7 @@ ASSUMPTIONS = ['the records "that had been written" are what sedfitter\'s own re
                'package authoring and convolution are only a means to obtain realistic records here; a scenario whose '
                'setup stage fails is discarded and counted, not failed']
 PROBES = ['reader_raised', 'exact_prefix_nonempty', 'exact_prefix_empty', 'crash_inside_metadata', 'crash_on_boundary',
-          'live_crash', 'live_enospc', 'observer_reads', 'filter_output_streams', 'with_model_fluxes', 'synthetic_big_record', 'path_written_before', 'cut_in_place']
+          'live_crash', 'live_enospc', 'observer_reads', 'filter_output_streams', 'with_model_fluxes', 'synthetic_big_record', 'path_written_before', 'cut_in_place', 'consumer_ran_on_cut_file_first', 'consumer_ran_on_previous_cut', 'records_yielded_before_the_error']
 
 
 def budgets(tier):
@@ -98,19 +98,53 @@ def generate(rng, tier, idx):
                      'frac': round(rng.random(), 4), 'delta': rng.randint(-2, 2), 'pick': rng.randrange(100)})
     sc['live'] = live
     sc['observe'] = rng.random() < 0.3
+    sc['consumer_on_cut'] = rng.choice([None, None, None, 'wp', 'wpr', 'ep'])
+    sc['consumer_after_read'] = rng.random() < 0.5
     return sc
+
+
+def _read_partial(path):
+    """Read a fit file the way a consumer's loop does: whatever the reader YIELDS before it fails has been used by then,
+    so it is kept and judged too.  Returns ('ok', records) or ('exc', exception, records yielded before it)."""
+    recs = []
+    try:
+        f = pipe.FitInfoFile(path, 'r')
+    except BaseException as e:      # noqa
+        if isinstance(e, (KeyboardInterrupt, env.SimCrash)) or type(e).__name__ == '_OpTimeout':
+            raise
+        return ('exc', e, recs)
+    try:
+        for r in f:
+            recs.append(r)
+    except BaseException as e:      # noqa
+        if isinstance(e, (KeyboardInterrupt, env.SimCrash)) or type(e).__name__ == '_OpTimeout':
+            raise
+        return ('exc', e, recs)
+    finally:
+        try:
+            f.close()
+        except Exception:
+            pass
+    return ('ok', recs)
 
 
 def _judge(out, res, G, n_complete, what, probes=True):
     """The C19 oracle on the outcome of one read of a truncated/partial file."""
     out.compared('truncated-read')
+    failed = None
     if res[0] != 'ok':
         if res[0] != 'exc':
             raise env.HarnessError('reader ended with %s' % (res,))
         if probes:
             out.probe('reader_raised')
-        return 'E:' + type(res[1]).__name__
-    recs = res[1]
+        failed = 'E:' + type(res[1]).__name__
+        if len(res) < 3 or not res[2]:
+            return failed
+        recs = res[2]                 # yielded before the error: must be an exact prefix all the same
+        if probes:
+            out.probe('records_yielded_before_the_error')
+    else:
+        recs = res[1]
     j = len(recs)
     if j > len(G):
         out.violate('invented-record', '%s: reader returned %d records, only %d were written' % (what, j, len(G)))
@@ -128,6 +162,8 @@ def _judge(out, res, G, n_complete, what, probes=True):
     if n_complete is not None and j > n_complete:
         out.violate('invented-record', '%s: reader returned %d records but only %d were completely written' % (what, j, n_complete))
         return 'bad'
+    if failed:
+        return failed
     if probes:
         out.probe('exact_prefix_nonempty' if j else 'exact_prefix_empty')
     return 'P%d' % j
@@ -268,7 +304,7 @@ def _execute_synthetic(sc, sim, out):
     for k in offs:
         with env.real_open(tp, 'wb') as f:
             f.write(B[:k])
-        rr = pipe.call(pipe.read_fit_sed, tp)
+        rr = _read_partial(tp)
         outcomes.add(_judge(out, rr, G, None, 'file syn.fitinfo cut at byte %d of %d%s' % (k, len(B), ' (in place)' if sc.get('in_place') else '')))
         if out.violations:
             break
@@ -286,7 +322,7 @@ def _execute_synthetic(sc, sim, out):
         if r[0] not in ('crash', 'exc'):
             raise env.HarnessError('live fault did not fire')
         out.probe('live_' + lf['kind'])
-        rr = pipe.call(pipe.read_fit_sed, outp)
+        rr = _read_partial(outp)
         outcomes.add(_judge(out, rr, G, None, 'live %s at byte %d' % (lf['kind'], at)))
     out.trace = ['synthetic', [min(r_['n'], 1000) // 250 for r_ in sc['records']], [r_['fluxes'] for r_ in sc['records']], sorted(outcomes)]
 
@@ -350,7 +386,15 @@ def _execute(sc, sim, out):
         for k in offs:
             with env.real_open(tp, 'wb') as f:
                 f.write(B[:k])
-            rr = pipe.call(pipe.read_fit_sed, tp)
+            if sc.get('consumer_on_cut') and not sc.get('consumer_after_read'):
+                # an analyst's script stumbles over the damaged file first (its outcome is not judged here)...
+                pipe.run_consumer(sim, sc['consumer_on_cut'], tp, ('A', 0), 'cut', {})
+                out.probe('consumer_ran_on_cut_file_first')
+            rr = _read_partial(tp)
+            if sc.get('consumer_on_cut') and sc.get('consumer_after_read'):
+                # ... or after the read, so that whatever it leaves behind in the process meets the NEXT cut
+                pipe.run_consumer(sim, sc['consumer_on_cut'], tp, ('A', 0), 'cut', {})
+                out.probe('consumer_ran_on_previous_cut')
             ncomp = None if bounds is None else sum(1 for b in bounds if b <= k)
             oc = _judge(out, rr, G, ncomp, 'file %s cut at byte %d of %d' % (os.path.basename(p), k, len(B)))
             outcomes.add(oc)
@@ -393,7 +437,7 @@ def _execute(sc, sim, out):
             out.probe('live_' + lf['kind'])
             region = 'meta' if (cum and at < cum[min(2, len(cum) - 1)]) else 'rec'
             regions.add((lf['kind'], region))
-            rr = pipe.call(pipe.read_fit_sed, outp)
+            rr = _read_partial(outp)
             ncomp = None if bounds is None else sum(1 for b in bounds if b <= at)
             outcomes.add(_judge(out, rr, G, ncomp, 'live %s at byte %d' % (lf['kind'], at)))
             if out.violations:
@@ -405,7 +449,7 @@ def _execute(sc, sim, out):
 
         def observer():
             size = os.path.getsize(outp) if os.path.exists(outp) else 0
-            rr = pipe.call(pipe.read_fit_sed, outp)
+            rr = _read_partial(outp)
             ncomp = None if bounds is None else sum(1 for b in bounds if b <= size)
             seen.append(_judge(out, rr, G, ncomp, 'observer at %d durable bytes' % size))
             out.probe('observer_reads')
@@ -456,6 +500,8 @@ def lowerings(sc, viol=None):
         m = re.search(r'cut at byte (\d+)', viol['message'])
         if m:
             yield dict(sc, offsets={'mode': 'list', 'list': [int(m.group(1))]}, live=[], observe=False)
+    if sc.get('consumer_on_cut'):
+        yield dict(sc, consumer_on_cut=None)
     if sc['live']:
         yield dict(sc, live=[])
         for i in range(len(sc['live'])):
